@@ -242,6 +242,7 @@ pub fn run_case(case: &C10Case) -> Result<CaseInfo, Fail> {
                 let how = httpx::AppendHow {
                     chunked: chunk.map(|n| n as usize),
                     explicit_zero_ctx: false,
+                    ctx_first: false,
                     split_at,
                 };
                 match httpx::append(&c.sock, &spec, Some(&bytes), &how) {
